@@ -165,6 +165,10 @@ def jobs(tier, seed):
             if depth == 2:
                 for op in ("compose", "elim-refine", "elim-relax"):
                     adv.append({"op": op, "c1": c1, "c2": c3})
+    # an assumption that can only be refined to the unsatisfiable constant constraint while no guarantee survives: the
+    # result's lists hold variable-free terms only (AssertionError in reduce_polytope before the repair, defect 17)
+    adv.append({"op": "compose", "c1": {"in": ["y"], "out": ["z"], "a": [{"y": 0.5}], "g": [{"y": 1, "z": 0.5}]}, "c2": {"in": ["x"], "out": ["y"], "a": [], "g": [{"y": 1}]}})
+    adv.append({"op": "compose", "c1": {"in": ["y"], "out": ["z"], "a": [{"y": -1}], "g": [{"y": -1, "z": 1}]}, "c2": {"in": ["x"], "out": ["y"], "a": [], "g": [{"y": -2}]}})
     # a dividend guarantee that a tactic transforms although the quotient as a whole fails (leftover internal variable)
     adv.append({"op": "quotient", "c1": {"in": ["i"], "out": ["o", "p"], "a": [], "g": [{"o": 1, "i": -1}, {"p": 1, "i": 1}]}, "c2": {"in": ["i"], "out": ["m"], "a": [], "g": [{"m": 1, "i": -1}, {"m": -1, "i": 1}]}})
     adv.append({"op": "quotient", "c1": {"in": ["i"], "out": ["o", "p"], "a": [{"i": 1}], "g": [{"o": 1, "i": -2}, {"p": -1, "i": 1}]}, "c2": {"in": ["i"], "out": ["m"], "a": [{"i": 1}], "g": [{"m": 1, "i": -1}]}})
